@@ -85,6 +85,8 @@ type Run struct {
 	traces     atomic.Int64
 	capped     atomic.Bool
 	running    atomic.Bool // inside Check.Run (not while replaying)
+	// ItemLimit bounds one work item of Par (0: 150 s in the quick tier, none in thorough; <0: none)
+	ItemLimit time.Duration
 
 	mu       sync.Mutex
 	fails    map[string]*Fail
@@ -419,11 +421,22 @@ func (r *Run) Par(n int, f func(i int)) {
 	if workers < 1 {
 		workers = 1
 	}
+	// Hang detection (quick tier, unless the check sets ItemLimit itself): a work item
+	// that runs longer than ItemLimit — hundreds of times its normal duration — is run
+	// again on a fresh goroutine under the same limit; if that does not return either,
+	// the code under test never returns on some case of the item: reported (without a
+	// replayable case, like an uncaught panic) and the exploration ends.
+	limit := r.ItemLimit
+	if limit == 0 && r.Quick() {
+		limit = 150 * time.Second
+	}
+	type slot struct{ item, start atomic.Int64 }
+	slots := make([]slot, workers)
 	var next atomic.Int64
 	var wg sync.WaitGroup
 	for w := 0; w < workers; w++ {
 		wg.Add(1)
-		go func() {
+		go func(sl *slot) {
 			defer wg.Done()
 			for {
 				i := int(next.Add(1) - 1)
@@ -433,11 +446,52 @@ func (r *Run) Par(n int, f func(i int)) {
 				if r.Expired() || Hung.Load() {
 					return
 				}
+				sl.start.Store(time.Now().UnixNano())
+				sl.item.Store(int64(i) + 1)
 				r.guard(func() { f(i) })
+				sl.item.Store(0)
 			}
-		}()
+		}(&slots[w])
 	}
-	wg.Wait()
+	done := make(chan struct{})
+	go func() { wg.Wait(); close(done) }()
+	if limit <= 0 {
+		<-done
+		return
+	}
+	tick := time.NewTicker(2 * time.Second)
+	defer tick.Stop()
+	for {
+		select {
+		case <-done:
+			return
+		case <-tick.C:
+		}
+		for w := range slots {
+			it := slots[w].item.Load()
+			if it == 0 || time.Since(time.Unix(0, slots[w].start.Load())) < limit {
+				continue
+			}
+			i := int(it - 1)
+			if slots[w].item.Load() != it { // finished meanwhile
+				continue
+			}
+			if Within(limit, func() { r.guard(func() { f(i) }) }) {
+				Hung.Store(false) // slow, not stuck
+				slots[w].start.Store(time.Now().UnixNano())
+				continue
+			}
+			r.mu.Lock()
+			sig := "no return (work item)"
+			r.failCnt[sig]++
+			if _, ok := r.fails[sig]; !ok {
+				r.fails[sig] = &Fail{Sig: sig, What: fmt.Sprintf("work item %d of %d of this exploration did not return within %v, twice (normal duration: well under a second): some call into the code under test never returns", i, n, limit)}
+			}
+			r.mu.Unlock()
+			r.Cap("exploration stopped: a work item never returned")
+			return // Hung is set: later Par calls hand out no work
+		}
+	}
 }
 
 func loadFindings() []finding {
